@@ -2,8 +2,18 @@ package actionlint
 
 import (
 	"fmt"
+	"sort"
 	"strings"
 )
+
+func sortedMapKeys[T any](m map[string]T) []string {
+	ks := make([]string, 0, len(m))
+	for k := range m {
+		ks = append(ks, k)
+	}
+	sort.Strings(ks)
+	return ks
+}
 
 // RuleWorkflowCall is a rule checker to check workflow call at jobs.<job_id>.
 type RuleWorkflowCall struct {
@@ -88,8 +98,10 @@ func (rule *RuleWorkflowCall) checkWorkflowCallUsesLocal(call *WorkflowCall) {
 		return
 	}
 
-	// Validate inputs
-	for n, i := range m.Inputs {
+	// Validate inputs. Required inputs are checked in sorted order to report errors in a deterministic
+	// order since all of them are reported at the same position
+	for _, n := range sortedMapKeys(m.Inputs) {
+		i := m.Inputs[n]
 		if i != nil && i.Required {
 			if _, ok := call.Inputs[n]; !ok {
 				rule.Errorf(u.Pos, "input %q is required by %q reusable workflow", i.Name, u.Value)
@@ -116,7 +128,8 @@ func (rule *RuleWorkflowCall) checkWorkflowCallUsesLocal(call *WorkflowCall) {
 
 	// Validate secrets
 	if !call.InheritSecrets {
-		for n, s := range m.Secrets {
+		for _, n := range sortedMapKeys(m.Secrets) {
+			s := m.Secrets[n]
 			if s.Required {
 				if _, ok := call.Secrets[n]; !ok {
 					rule.Errorf(u.Pos, "secret %q is required by %q reusable workflow", s.Name, u.Value)
